@@ -305,8 +305,8 @@ def showItem (name : String) : Item → String
   | .asn a => s!"AS{a}"
   | .junk k => junkWords.getD (k % junkWords.length) "x"
   -- IRRd returns members as they were registered; RPSL accepts both cases of the hex digits, and
-  -- every third IPv6 member is written in upper case (`2001:DB8:A::/48`)
-  | .member p op => (if p.fam == .v6 && p.bits % 3 == 1 then (showPfx p).toUpper else showPfx p) ++ showOp op
+  -- every other IPv6 member is written in upper case (`2001:DB8:A::/48`)
+  | .member p op => (if p.fam == .v6 && (p.bits + p.len) % 2 == 1 then (showPfx p).toUpper else showPfx p) ++ showOp op
   | .obj o =>
     -- all attributes RFC 2622 makes mandatory (the rpsl crate rejects objects lacking one of them)
     let tail := "tech-c:         TEST1-TEST\nadmin-c:        TEST1-TEST\nmnt-by:         MAINT-TEST\nchanged:        test@example.net 20240101\nsource:         TEST"
